@@ -214,7 +214,7 @@ def mutate_text(r, text, kind):
 
 
 # ------------------------------------------------------------------------------------------------------------
-FORMATS = ["multicol", "multicol", "raw", "rawg", "file", "state", "state", "dx"]
+FORMATS = ["multicol", "multicol", "raw", "rawg", "file", "state", "state", "dx", "remap"]
 
 
 def gen_io_case(r, k):
@@ -259,6 +259,22 @@ def gen_io_case(r, k):
         c.update({"mult": mult, "cvs": cvs, "geo": geo, "geo0": geo0,
                   "data": [rand_value(r, dy_data) for _ in range(nt_of(geo))],
                   "data0": [rand_value(r, dy_data) for _ in range(nt_of(geo0))]})
+    elif fmt == "remap":
+        # a file written on one grid read into a grid of another definition (same widths): the re-gridding branch of read_multicol,
+        # multiplicity 1..3, add or overwrite; dyadic so that every bin decision is exact
+        c["dyadic_geom"] = c["dyadic_data"] = True
+        g = rand_grid(r, True, True)
+        g0 = dict(g)
+        g0["per"] = [r.randint(0, 1) for _ in g["per"]]
+        g0["nx"] = [n if p else r.randint(1, 4) for n, p in zip(g["nx"], g0["per"])]
+        g0["lower"] = [l + r.randint(-2 * n, 2 * n) * w * r.choice([1.0, 1.0, 0.5]) for l, n, w in zip(g["lower"], g["nx"], g["width"])]
+        g0["upper"] = [l + n * w for l, n, w in zip(g0["lower"], g0["nx"], g0["width"])]
+        nt0 = g["mult"]
+        for n in g0["nx"]:
+            nt0 *= n
+        g0["data"] = [rand_value(r, True) for _ in range(nt0)]
+        c["g"], c["g0"] = g, g0
+        c["add"] = r.randint(0, 1)
     else:
         g = rand_grid(r, dy_geom, dy_data, mult=(1 if fmt == "dx" else None))
         c["g"] = g
@@ -267,7 +283,7 @@ def gen_io_case(r, k):
         c["buf"] = {"raw": 3, "rawg": 8}.get(fmt, 3)
     kinds = {"multicol": ["truncate", "drop", "garble"], "raw": ["truncate", "drop", "garble"],
              "rawg": ["truncate", "drop", "garble"], "file": ["truncate-rows"], "state": ["truncate", "drop", "garble"],
-             "dx": []}[fmt]
+             "dx": [], "remap": []}[fmt]
     c["mutations"] = [(kind, r.randint(0, 1 << 30)) for kind in kinds]
     return c
 
@@ -280,7 +296,7 @@ def write_cmds(c):
     s = spec(c["g"])
     if f in ("raw", "rawg"):
         return "GW %s %d %s" % (f, c["buf"], s), "WRITE %s %d %s" % (f, c["buf"], s)
-    if f == "file":
+    if f in ("file", "remap"):
         return "GW multicol " + s, "WRITE multicol " + s
     return "GW %s %s" % (f, s), "WRITE %s %s" % (f, s)
 
@@ -296,6 +312,8 @@ def read_cmds(c, text):
     if f == "file":
         return "GF %d TEXT %s" % (c["g"]["mult"], bar), "READ file %d TOKS %s" % (c["g"]["mult"], toks)
     s = spec(c["g0"])
+    if f == "remap":
+        return "GR multicolR %d %s TEXT %s" % (c["add"], s, bar), "READ multicol %d %s TOKS %s" % (c["add"], s, toks)
     if f == "multicol":
         return "GR multicol %d %s TEXT %s" % (c["add"], s, bar), "READ multicol %d %s TOKS %s" % (c["add"], s, toks)
     return "GR raw %s TEXT %s" % (s, bar), "READ raw %s TOKS %s" % (s, toks)
@@ -312,6 +330,26 @@ def expected_after_read(c):
         return {"mult": c["mult"], "nx": nx, "lower": [d["lower"] for d in geo], "upper": [d["upper"] for d in geo],
                 "width": [d["width"] for d in geo], "per": per, "data": c["data"]}
     g, g0 = c["g"], c["g0"]
+    if f == "remap":
+        import itertools, math
+        e = dict(g0)
+        data = list(g0["data"])
+        m = g["mult"]
+        for a, ix in enumerate(itertools.product(*[range(n) for n in g["nx"]])):
+            tgt, ok = 0, True
+            for d_ in range(g["nd"]):
+                x = g["lower"][d_] + g["width"][d_] * (0.5 + ix[d_])
+                b = math.floor((x - g0["lower"][d_]) / g0["width"][d_])
+                if g0["per"][d_]:
+                    b %= g0["nx"][d_]
+                if not (0 <= b < g0["nx"][d_]):
+                    ok = False
+                tgt = tgt * g0["nx"][d_] + b
+            if ok:
+                for k_ in range(m):
+                    data[tgt * m + k_] = (data[tgt * m + k_] if c["add"] else 0.0) + g["data"][a * m + k_]
+        e["data"] = data
+        return e
     if f == "file":
         return {"mult": g["mult"], "nx": g["nx"], "lower": g["lower"], "upper": [], "width": g["width"], "per": g["per"],
                 "data": g["data"]}
@@ -441,7 +479,7 @@ def run_io(run, r, unit, model, n):
             except ValueError:
                 run.mismatch("io:dx:header", {"cmd": wl[cases.index(c)][0][:300]}, h, tm[:200])
             continue
-        if f in ("multicol", "file"):
+        if f in ("multicol", "file", "remap"):
             bad = multicol_layout_bad(c["g"], text, max(tol, 0.0))
             if bad:
                 run.violation("io:multicol:layout", "a multicolumn file does not describe the grid that was written: " + bad,
@@ -480,7 +518,11 @@ def run_io(run, r, unit, model, n):
         if mut is None:
             exp = expected_after_read(c)
             bad = grids_differ(gi, exp, tol) if gi is not None else "the reader rejected the file it had written"
-            if bad:
+            if bad and f == "remap":
+                run.violation("io:remap", "a multicolumn file read into a grid of another definition (lower %s sizes %s periodic %s, add=%d): %s; every value belongs in the bin that contains its bin centre (modulo the period)" % (
+                    c["g0"]["lower"], c["g0"]["nx"], c["g0"]["per"], c["add"], bad),
+                    {"kind": "io", "write": write_cmds(c)[0], "read": a, "text": text, "expected": exp, "got": gi})
+            elif bad:
                 run.violation("io:roundtrip:" + f, "a grid written in %s form and read back is not the same grid (%s): wrote sizes %s lower %s upper %s widths %s periodic %s, read back %s" % (
                     f, bad, exp["nx"], exp["lower"], exp["upper"], exp["width"], exp["per"],
                     {k_: gi[k_] for k_ in ("nx", "lower", "upper", "width", "per")} if gi else "ERR"),
